@@ -176,6 +176,7 @@ spawn_impl(void (*fn)(void*), void* (*pfn)(void*), void* arg, const char* name)
     F.fake = nullptr;
     F.join_target = -1;
     F.timed = F.timed_out = false;
+    F.clock_reads = 0; // (Fiber objects are reused across cases: nothing may leak into the next case)
     getcontext(&F.ctx);
     F.ctx.uc_stack.ss_sp = F.stack;
     F.ctx.uc_stack.ss_size = STACK;
